@@ -1,0 +1,76 @@
+//go:build verif
+
+// Contracts for the EDNS0 option codecs (edns.go) and the OPT pseudo-record helpers.  Layouts transcribed from
+// RFC 8764 (LLQ), draft-sekar-dns-ul (UL), RFC 7314 (EXPIRE), RFC 7828 (TCP keepalive), RFC 7871 (client
+// subnet), RFC 8914 (EDE), RFC 9660 (zone version), RFC 6891 (OPT TTL fields).  Comment-only file.
+
+package dns
+
+//@ iface EDNS0.pack [C01 C02]
+
+// LLQ: VERSION(2) LLQ-OPCODE(2) ERROR-CODE(2) LLQ-ID(8) LEASE-LIFE(4)
+//@ func (*EDNS0_LLQ).pack [C01]
+//@   ensures ret1 == nil && len(ret0) == 18 && fresh(ret0)
+//@   ensures ver: ret0[0] == e.Version / 256 && ret0[1] == e.Version % 256
+//@   ensures opc: ret0[2] == e.Opcode / 256 && ret0[3] == e.Opcode % 256
+//@   ensures err: ret0[4] == e.Error / 256 && ret0[5] == e.Error % 256
+//@   ensures id:  ret0[6] == e.Id / 72057594037927936 && ret0[7] == (e.Id / 281474976710656) % 256 && ret0[8] == (e.Id / 1099511627776) % 256 && ret0[9] == (e.Id / 4294967296) % 256 && ret0[10] == (e.Id / 16777216) % 256 && ret0[11] == (e.Id / 65536) % 256 && ret0[12] == (e.Id / 256) % 256 && ret0[13] == e.Id % 256
+//@   ensures life: ret0[14] == e.LeaseLife / 16777216 && ret0[15] == (e.LeaseLife / 65536) % 256 && ret0[16] == (e.LeaseLife / 256) % 256 && ret0[17] == e.LeaseLife % 256
+//@ func (*EDNS0_LLQ).unpack [C01]
+//@   ensures short: len(b) < 18 ==> ret0 != nil
+//@   ensures ok:    len(b) >= 18 ==> ret0 == nil && e.Version == b[0]*256 + b[1] && e.Opcode == b[2]*256 + b[3] && e.Error == b[4]*256 + b[5] && e.LeaseLife == b[14]*16777216 + b[15]*65536 + b[16]*256 + b[17]
+//@   ensures id:    len(b) >= 18 ==> e.Id == b[6]*72057594037927936 + b[7]*281474976710656 + b[8]*1099511627776 + b[9]*4294967296 + b[10]*16777216 + b[11]*65536 + b[12]*256 + b[13]
+
+// UL: LEASE(4) [KEY-LEASE(4) when non-zero]
+//@ func (*EDNS0_UL).pack [C01]
+//@   ensures ret1 == nil && fresh(ret0) && len(ret0) == (e.KeyLease == 0 ? 4 : 8)
+//@   ensures lease: ret0[0] == e.Lease / 16777216 && ret0[1] == (e.Lease / 65536) % 256 && ret0[2] == (e.Lease / 256) % 256 && ret0[3] == e.Lease % 256
+//@   ensures key:   e.KeyLease != 0 ==> ret0[4] == e.KeyLease / 16777216 && ret0[5] == (e.KeyLease / 65536) % 256 && ret0[6] == (e.KeyLease / 256) % 256 && ret0[7] == e.KeyLease % 256
+//@ func (*EDNS0_UL).unpack [C01]
+//@   ensures len(b) != 4 && len(b) != 8 ==> ret0 != nil
+//@   ensures len(b) == 4 || len(b) == 8 ==> ret0 == nil && e.Lease == b[0]*16777216 + b[1]*65536 + b[2]*256 + b[3]
+//@   ensures len(b) == 4 ==> e.KeyLease == 0
+//@   ensures len(b) == 8 ==> e.KeyLease == b[4]*16777216 + b[5]*65536 + b[6]*256 + b[7]
+
+// EXPIRE: empty, or EXPIRE(4)
+//@ func (*EDNS0_EXPIRE).pack [C01]
+//@   ensures ret1 == nil && (e.Empty ==> len(ret0) == 0) && (!e.Empty ==> len(ret0) == 4 && ret0[0] == e.Expire / 16777216 && ret0[1] == (e.Expire / 65536) % 256 && ret0[2] == (e.Expire / 256) % 256 && ret0[3] == e.Expire % 256)
+//@ func (*EDNS0_EXPIRE).unpack [C01]
+//@   ensures len(b) == 0 ==> ret0 == nil && e.Empty
+//@   ensures len(b) >= 4 ==> ret0 == nil && !e.Empty && e.Expire == b[0]*16777216 + b[1]*65536 + b[2]*256 + b[3]
+//@   ensures 0 < len(b) && len(b) < 4 ==> ret0 != nil
+
+// TCP keepalive: empty, or TIMEOUT(2)
+//@ func (*EDNS0_TCP_KEEPALIVE).pack [C01]
+//@   ensures ret1 == nil && (e.Timeout == 0 ==> len(ret0) == 0) && (e.Timeout > 0 ==> len(ret0) == 2 && ret0[0] == e.Timeout / 256 && ret0[1] == e.Timeout % 256)
+//@ func (*EDNS0_TCP_KEEPALIVE).unpack [C01]
+//@   ensures len(b) == 2 ==> ret0 == nil && e.Timeout == b[0]*256 + b[1]
+//@   ensures len(b) == 0 ==> ret0 == nil
+//@   ensures len(b) != 0 && len(b) != 2 ==> ret0 != nil
+
+// EDE: INFO-CODE(2) EXTRA-TEXT
+//@ func (*EDNS0_EDE).pack [C01]
+//@   ensures ret1 == nil && fresh(ret0) && len(ret0) == 2 + len(e.ExtraText) && ret0[0] == e.InfoCode / 256 && ret0[1] == e.InfoCode % 256
+//@   ensures text: forall k in 0..len(e.ExtraText) :: ret0[2 + k] == e.ExtraText[k]
+//@ func (*EDNS0_EDE).unpack [C01]
+//@   ensures len(b) < 2 ==> ret0 != nil
+//@   ensures len(b) >= 2 ==> ret0 == nil && e.InfoCode == b[0]*256 + b[1] && len(e.ExtraText) == len(b) - 2
+//@   ensures text: len(b) >= 2 ==> (forall k in 0..len(b)-2 :: e.ExtraText[k] == b[2 + k])
+
+// ZONEVERSION: LABELCOUNT(1) TYPE(1) VERSION
+//@ func (*EDNS0_ZONEVERSION).pack [C01]
+//@   ensures ret1 == nil && len(ret0) == 2 + len(e.Version) && ret0[0] == e.LabelCount && ret0[1] == e.Type
+//@   ensures text: forall k in 0..len(e.Version) :: ret0[2 + k] == e.Version[k]
+//@ func (*EDNS0_ZONEVERSION).unpack [C01]
+//@   ensures len(b) < 2 ==> ret0 != nil
+//@   ensures len(b) >= 2 ==> ret0 == nil && e.LabelCount == b[0] && e.Type == b[1] && len(e.Version) == len(b) - 2
+//@   ensures text: len(b) >= 2 ==> (forall k in 0..len(b)-2 :: e.Version[k] == b[2 + k])
+
+// client subnet: FAMILY(2) SOURCE-PREFIX-LENGTH(1) SCOPE-PREFIX-LENGTH(1) ADDRESS(ceil(source/8))
+//@ func (*EDNS0_SUBNET).pack [C01]
+//@   ensures hdr: ret1 == nil && e.Family != 0 ==> len(ret0) == 4 + (e.SourceNetmask + 7) / 8 && ret0[0] == e.Family / 256 && ret0[1] == e.Family % 256 && ret0[2] == e.SourceNetmask && ret0[3] == e.SourceScope
+//@   ensures fam0: ret1 == nil && e.Family == 0 ==> len(ret0) == 4 && ret0[0] == 0 && ret0[1] == 0 && ret0[2] == 0 && ret0[3] == e.SourceScope
+//@   ensures lim: ret1 == nil ==> (e.Family == 1 ==> e.SourceNetmask <= 32) && (e.Family == 2 ==> e.SourceNetmask <= 128) && e.Family <= 2
+//@ func (*EDNS0_SUBNET).unpack [C01]
+//@   ensures len(b) < 4 ==> ret0 != nil
+//@   ensures ret0 == nil ==> e.Family == b[0]*256 + b[1] && e.SourceNetmask == b[2] && e.SourceScope == b[3] && e.Family <= 2
